@@ -20,7 +20,7 @@ func c24(x *ctx) {
 	thorough := x.tier == "thorough"
 	r.Rule = "programs with a target method `helper`, every multiset of 1-2 (thorough: 3) call sites drawn from {statement, assignment rhs, if/elsif/unless/while condition, argument of another call, inside a block, inside a loop body} x enclosing {top level, top-level method, instance method of a class, class method}; " +
 		"`--llm-nav --target=helper` must list exactly one caller entry per call site with its row and enclosing method/class and `total callers` = number of sites; `--llm-nav --target=<caller>` must list only callees that are written in that method's body, one per written call. non-trivial = all"
-	ctxs := []string{"stmt", "assign", "if-cond", "elsif-cond", "unless-cond", "while-cond", "argument", "block", "loop-body"}
+	ctxs := []string{"stmt", "assign", "if-cond", "elsif-cond", "unless-cond", "while-cond", "argument", "block", "loop-body", "nested-arg", "array-pair"}
 	encls := []string{"toplevel", "topmethod", "instmethod", "classmethod"}
 	var kinds []c24site
 	for _, c := range ctxs {
@@ -78,6 +78,11 @@ func c24(x *ctx) {
 			return []string{ind + "[1, 2].each do |e|", ind + "  helper(e)", ind + "end"}, 1, []string{"helper"}
 		case "loop-body":
 			return []string{ind + "i = 0", ind + "while i < 2", ind + "  helper(i)", ind + "  i = i + 1", ind + "end"}, 2, []string{"helper"}
+		// two calls of the target on one row
+		case "nested-arg":
+			return []string{ind + "helper(helper(1))"}, 0, []string{"helper", "helper"}
+		case "array-pair":
+			return []string{ind + "v = [helper(1), helper(2)]"}, 0, []string{"helper", "helper"}
 		}
 		panic(ctx)
 	}
@@ -104,7 +109,11 @@ func c24(x *ctx) {
 				for i, l := range ls {
 					line(l)
 					if i == ci {
-						p.callers = append(p.callers, expCaller{row, mname, cls})
+						for _, cn := range callees {
+							if cn == "helper" {
+								p.callers = append(p.callers, expCaller{row, mname, cls})
+							}
+						}
 					}
 				}
 				if mname != "top level" {
@@ -363,6 +372,10 @@ func siteKindAtRow(src, feat, key string) string {
 	}
 	ctx := "stmt"
 	switch {
+	case strings.HasPrefix(l, "v = ["):
+		ctx = "array-pair"
+	case strings.HasPrefix(l, "helper(helper("):
+		ctx = "nested-arg"
 	case strings.HasPrefix(l, "v = "):
 		ctx = "assign"
 	case strings.HasPrefix(l, "if "):
